@@ -5,7 +5,9 @@ by the reference model without reading the generated code. Namespace `nasty` hol
 C17 names (quotes, backslashes, newlines, </script>, <!--, U+2028, non-ASCII)."""
 import json, os
 HERE = os.path.dirname(os.path.abspath(__file__))
-LOCALES = ["en", "fr", "fr-CA", "de", "pt-BR"]
+# `pt-br` is spelled non-canonically on purpose (its canonical form is pt-BR): the configured name is what cookies,
+# the embedded translations and `<html lang>` carry. `zh` is declared before its script refinement `zh-Hant`.
+LOCALES = ["en", "fr", "fr-CA", "de", "pt-br", "zh", "zh-Hant", "ar"]
 
 def common(l):
     return {
@@ -39,10 +41,14 @@ def bare(l):
         return {"only": "{{ x }}", "num": 7}
     return {"only": f"{{{{ x }}}} [{l}]", "num": 7}
 
+def side_bar(l):
+    # a namespace whose name is not an identifier
+    return {"title": f"side.title[{l}]", "entry": f"side.entry[{l}] {{{{ n }}}}"}
+
 for l in LOCALES:
     d = os.path.join(HERE, "locales", l)
     os.makedirs(d, exist_ok=True)
-    for ns, f in [("common", common), ("home", home), ("nasty", nasty), ("bare", bare)]:
+    for ns, f in [("common", common), ("home", home), ("nasty", nasty), ("bare", bare), ("side-bar", side_bar)]:
         with open(os.path.join(d, f"{ns}.json"), "w", encoding="utf-8") as fh:
             json.dump(f(l), fh, indent=1, ensure_ascii=False)
             fh.write("\n")
